@@ -31,15 +31,16 @@ def lpcCode : LPc → String
   | .notify => "notify" | .notifyFinal => "notifyFinal" | .finished => "fin"
 
 def cpcCode : CPc → String
-  | .idle => "-" | .waiting => "wait" | .reading => "read" | .done => "done"
+  | .idle => "-" | .waiting => "wait" | .reading => "read" | .yielding => "yield" | .done => "done"
 
 def thLine (t : TH) : String :=
-  let ev := if t.cpc = .waiting ∨ t.cpc = .reading then encBool t.ev else "N"
+  let ev := if t.cpc = .waiting ∨ t.cpc = .reading ∨ t.cpc = .yielding then encBool t.ev else "N"
   let pend := match t.pend with | some s => encStr s | none => "N"
   s!"L={lpcCode t.lpc} C={cpcCode t.cpc} ev={ev} loaded={encBool t.loaded} pend={pend} strs={encStrs t.strs} out={encStrs t.out} store={encStrs t.storage}"
 
 def parseStep : List String → Option Step
   | ["cstart"] => some .cstart | ["cwait"] => some .cwait | ["cread"] => some .cread
+  | ["cyield"] => some .cyield
   | ["lreset"] => some .lreset | ["lsnap"] => some .lsnap | ["lappend"] => some .lappend
   | ["lnotify"] => some .lnotify | ["ldone"] => some .ldone | ["lfinal"] => some .lfinal
   | ["ains", s] => do pure (.ains (← decStr s))
